@@ -19,14 +19,40 @@ def dmg(skel, io, w=1, damage=1, verify=1, stride=1, pos0=0, page=-1, timeout=60
     ref = list(REF)
     if skel == 3: ref.append('ref_parquet_write.c')
     if special is not None: d += ['-DVSPECIAL', '-DVCRCVAL=0x%08xu' % special]
-    return E2(nm, H, defines=d, all_lib=True, ref=ref, timeout=timeout, stubs=STUBS, max_paths=100000,
+    return E2(nm, H, defines=d, all_lib=True, ref=ref, timeout=timeout, stubs=STUBS, max_paths=400000, fork_max=256,
               bounds='file: %s; %s; %s bytes XORed with %s at %s position of the body of %s; opened via %s, verify_checksums %s' % (
                   SK[skel] if special is None else 'carquet writer, one REQUIRED INT32 page whose stored CRC is 0x%08x (value found by the solver through the real CRC code)' % special,
                   'real carquet_crc32 (no summary)', w, 'any non-zero mask (every burst of <= %d bits)' % (8 * w) if damage else 'a zero mask (no damage)',
                   'every' if stride == 1 else 'every %dth (from %d)' % (stride, pos0), 'every page (symx_choice)' if page < 0 else 'page %d' % page, IO[io], 'on' if verify else 'off'))
 
 
+NPAGES = {0: 4, 1: 4, 2: 4, 3: 2}
+
+
 def obligations(tier):
     q = tier == 'quick'
     o = []
+    # ---- verify on, one damaged byte (any non-zero mask = every single-bit flip and every burst inside a byte), every position of every page
+    for skel in (0, 1, 2, 3):
+        for io in (0, 1, 2):
+            if q and skel in (1, 2) and io != (skel % 3): continue          # codecs: one I/O mode each in the quick tier
+            for pg in range(NPAGES[skel]):
+                o.append(dmg(skel, io, page=pg, timeout=900))
+    # ---- stored checksums with special values
+    for i, v in enumerate((0x00000000, 0xFFFFFFFF, 0x00000001, 0x80000000)):
+        for io in ([i % 3] if q else [0, 1, 2]):
+            o.append(dmg(0, io, special=v, timeout=900))
+    # ---- undamaged files never report an error
+    for skel in (0, 1, 2, 3):
+        for io in (0, 1, 2):
+            o.append(dmg(skel, io, damage=0))
+    # ---- verification off: memory safety only; bursts of 1 and 4 bytes (no CRC is computed, the bytes reach the decoders)
+    for skel in (0, 1, 2, 3):
+        for io in ([skel % 3] if q else [0, 1, 2]):
+            o.append(dmg(skel, io, verify=0, w=1, timeout=900))
+            o.append(dmg(skel, io, verify=0, w=4, timeout=900))
+    # ---- verify on, two adjacent damaged bytes (every burst of <= 16 bits) at chosen positions: 65535 masks per position
+    if not q:
+        for skel, pg, pos in ((0, 0, 0), (0, 3, 7), (0, 3, 14), (3, 0, 3)):
+            o.append(dmg(skel, 0, w=2, page=pg, stride=64, pos0=pos, timeout=2400))
     return o
